@@ -58,11 +58,12 @@ struct Ref {
     std::vector<int> N1;                               // global/fourier: number of 1-D points up to level l
     std::vector<std::vector<double>> lev1;             // 1-D canonical points per level/index (from 1-D grids made by the library)
     std::vector<double> probes, yref, yrefC; double vscale = 1.0, tol = 1e-9;
-    std::string famtag, build_error, ref_mismatch;
+    std::string famtag, build_error, ref_mismatch; bool beyond = false;
     mutable std::vector<int> amin_cache, amax_cache;   // memoised admissible sets per delivered mask (-1 = not computed)
 
     // ---- local-polynomial geometry (independent of the library): 1-D parents of a dyadic key
     std::vector<long> parents1(long k) const{
+        if (fam == F_WAVELET){ std::vector<long> r; int l = wlevel(k); if (l < 1 || l > 8) return r; long h = wspacing(l); for(long c : {k - h, k + h}) if (c >= -ONE && c <= ONE && wlevel(c) == l - 1) r.push_back(c); return r; }
         if (order == 0){ // piecewise constant: key = index of the node (table below, indices 0..8), parent(p) = p / 3, no step-parents below level 3
             std::vector<long> r; if (k > 0) r.push_back(k / 3); return r; }
         return RefLocal(rule, order).parents(k);
@@ -93,11 +94,10 @@ struct Ref {
         auto pa = parents1(key[a][diff]), pb = parents1(key[b][diff]);
         return std::find(pa.begin(), pa.end(), key[b][diff]) != pa.end() || std::find(pb.begin(), pb.end(), key[a][diff]) != pb.end();
     }
-    bool related_wavelet(int a, int b, bool wide) const{
+    bool related_wavelet(int a, int b) const{ // as related_local, plus: every level-0 node counts as a parent of every level-1 node
+        if (related_local(a, b)) return true;
         int diff = -1; for(int j=0;j<d;j++) if (key[a][j] != key[b][j]){ if (diff >= 0) return false; diff = j; } if (diff < 0) return false;
-        long ka = key[a][diff], kb = key[b][diff]; int la = wlevel(ka), lb = wlevel(kb); if (std::abs(la - lb) != 1) return false;
-        if (wide && la + lb == 1) return true;   // the library treats every level-0 node as a parent of every level-1 node
-        return std::labs(ka - kb) <= wspacing(std::max(la, lb));
+        return wlevel(key[a][diff]) + wlevel(key[b][diff]) == 1;
     }
     int total_level(int i) const{ int l = 0; for(int j=0;j<d;j++) l += level1(key[i][j]); return l; }
 
@@ -116,21 +116,28 @@ struct Ref {
             while(ch){ ch = false; for(int i=0;i<nu;i++) if (A >> i & 1){ bool ok = true; for(int j=0;j<d && ok;j++) if (key[i][j] > 0){ auto lower = key[i]; lower[j]--; bool f = false; for(int q=0;q<nu;q++) if ((A >> q & 1) && key[q] == lower) f = true; if (!f) ok = false; } if (!ok){ A &= ~(1u << i); ch = true; } } }
             lo = hi = A;
         }else{
-            for(int pass=0; pass<2; pass++){
-                unsigned A = 0; for(int i=0;i<nu;i++) if ((D >> i & 1) && total_level(i) == 0) A |= 1u << i;
-                bool ch = true; while(ch){ ch = false; for(int i=0;i<nu;i++) if ((D >> i & 1) && !(A >> i & 1)) for(int a=0;a<nu;a++) if ((A >> a & 1) && (fam == F_WAVELET ? related_wavelet(i, a, pass == 1) : related_local(i, a))){ A |= 1u << i; ch = true; break; } }
-                if (pass == 0) lo = A; else hi = A;
-            }
+            // certainly admissible: the largest subset in which every point has ALL its parents (hierarchy-complete part);
+            // possibly admissible: everything connected to a root through parent/child relations (the documented "connected graph").
+            // Sets between the two are accepted: for a set that is not hierarchy-complete the statement does not say which notion applies.
+            unsigned A = D; bool ch = true;
+            while(ch){ ch = false; for(int i=0;i<nu;i++) if (A >> i & 1){ bool ok = true; for(int j=0;j<d && ok;j++) for(long pk : parents1(key[i][j])){ auto k = key[i]; k[j] = pk; bool f = false; for(int q=0;q<nu;q++) if ((A >> q & 1) && key[q] == k) f = true; if (!f){ ok = false; break; } } if (!ok){ A &= ~(1u << i); ch = true; } } }
+            lo = A;
+            A = 0; for(int i=0;i<nu;i++) if ((D >> i & 1) && total_level(i) == 0) A |= 1u << i;
+            ch = true; while(ch){ ch = false; for(int i=0;i<nu;i++) if ((D >> i & 1) && !(A >> i & 1)) for(int a=0;a<nu;a++) if ((A >> a & 1) && (fam == F_WAVELET ? related_wavelet(i, a) : related_local(i, a))){ A |= 1u << i; ch = true; break; } }
+            hi = A | lo;
         }
         amin_cache[D] = (int) lo; amax_cache[D] = (int) hi;
     }
     bool hierarchy_complete(unsigned L) const{ // every loaded point has all its 1-D parents (in every dimension) loaded
-        if (fam != F_LOCALP) return true;
+        if (fam != F_LOCALP) return true;   // the other families reproduce nodal values on every admissible set
         for(int i=0;i<nu;i++) if (L >> i & 1) for(int j=0;j<d;j++) for(long p : parents1(key[i][j])){ auto k = key[i]; k[j] = p; bool f = false; for(int q=0;q<nu;q++) if ((L >> q & 1) && key[q] == k) f = true; if (!f) return false; }
         return true;
     }
     int find(const double *x) const{ for(int i=0;i<nu;i++){ bool ok = true; for(int j=0;j<d;j++) if (!(std::abs(U[i][j] - x[j]) <= 1e-12 * std::max(1.0, std::abs(x[j])))){ ok = false; break; } if (ok) return i; } return -1; }
 };
+
+// points of 'big' that are not in 'small'
+static std::vector<Pt> minus(const std::vector<Pt> &big, const std::vector<Pt> &small){ std::vector<Pt> r; for(auto &p : big){ bool f = false; for(auto &q : small){ bool same = true; for(size_t j=0;j<p.size();j++) if (std::abs(p[j] - q[j]) > 1e-12) same = false; if (same) f = true; } if (!f) r.push_back(p); } return r; }
 
 static double canon(const Cfg &c, double x, int j){ if (c.ta.empty()) return x; if (c.fam == F_FOURIER) return (x - c.ta[j]) / (c.tb[j] - c.ta[j]); return to_canonical(x, c.ta[j], c.tb[j]); }
 
@@ -169,7 +176,11 @@ static Ref build_ref(const Conf &conf){
             for(auto &c : R.Uc){ std::vector<long> k(R.d); for(int j=0;j<R.d;j++){ k[j] = dy(c[j]); int lv = R.level1(k[j]); if (lv < 0 || lv > 8){ R.build_error = "coordinate is not a node of the reference hierarchy"; return R; } } R.key.push_back(k); }
         }
         R.tol = (R.fam == F_WAVELET) ? 1e-7 : 1e-9;
-        { std::ostringstream o; if (R.fam == F_LOCALP) o << IO::getRuleString(t.rule) << ":order" << t.order; else if (R.fam == F_WAVELET) o << "wavelet:order" << t.order; else if (R.fam == F_FOURIER) o << "fourier"; else o << famname(R.fam) << ":" << IO::getRuleString(t.rule); if (conf.cls == "beyond") o << ":beyond-initial"; R.famtag = o.str(); }
+        { TasmanianSparseGrid h; Cfg h0 = conf.host; h0.outs = 0; make(h, h0); auto HP = split(h.getPoints(), R.d); for(auto &p : R.U) if (minus({p}, HP).size()) R.beyond = true; }
+        { std::ostringstream o; bool one = true; if (R.lower_family()) for(size_t l=1;l<R.N1.size();l++) if (R.N1[l] - R.N1[l-1] != 1) one = false;
+          if (R.fam == F_LOCALP) o << IO::getRuleString(t.rule) << ":order" << t.order << (R.beyond ? ":beyond-initial" : ""); else if (R.fam == F_WAVELET) o << "wavelet:order" << t.order << (R.beyond ? ":beyond-initial" : "");
+          else if (R.beyond && R.fam != F_SEQUENCE) o << famname(R.fam) << ":beyond-initial:" << (one ? "one-point-levels" : "multi-point-levels");
+          else if (R.fam == F_FOURIER) o << "fourier"; else o << famname(R.fam) << ":" << IO::getRuleString(t.rule) << (R.beyond ? ":beyond-initial" : ""); R.famtag = o.str(); }
         // probes (user coordinates, interior, not nodes)
         const double base[6][2] = {{0.3127, -0.6181}, {-0.9371, 0.8713}, {0.1113, 0.4519}, {-0.4337, -0.2971}, {0.7411, 0.0917}, {-0.0631, -0.8853}};
         for(int p=0;p<6;p++) for(int j=0;j<R.d;j++){ double u = base[p][j % 2]; double x; if (t.fam == F_FOURIER){ u = 0.5 * (u + 1.0); x = t.ta.empty() ? u : t.ta[j] + u * (t.tb[j] - t.ta[j]); } else x = t.ta.empty() ? u : 0.5 * (t.tb[j] - t.ta[j]) * u + 0.5 * (t.tb[j] + t.ta[j]); R.probes.push_back(x); }
@@ -266,8 +277,8 @@ static Fail run_seq(const Ref &R, const Seq &s){
             if (o.L & ~D){ f = {true, "undelivered-point-loaded", when + ": loaded " + maskstr(o.L) + " but delivered only " + maskstr(D)}; return f; }
             if (Lprev & ~o.L){ f = {true, "loaded-point-vanished", when + ": loaded set shrank from " + maskstr(Lprev) + " to " + maskstr(o.L)}; return f; }
             unsigned lo, hi; R.admissible(D, lo, hi);
-            if (lo & ~o.L){ f = {true, std::string("admissible-not-loaded:") + (last ? "final" : "prefix"), when + ": delivered " + maskstr(D) + ", admissible part " + maskstr(lo) + ", loaded only " + maskstr(o.L)}; return f; }
-            if (o.L & ~hi){ f = {true, std::string("inadmissible-loaded:") + (last ? "final" : "prefix"), when + ": delivered " + maskstr(D) + ", admissible part " + maskstr(hi) + ", loaded " + maskstr(o.L)}; return f; }
+            if (lo & ~o.L){ f = {true, "admissible-not-loaded", when + ": delivered " + maskstr(D) + ", admissible part " + maskstr(lo) + ", loaded only " + maskstr(o.L)}; return f; }
+            if (o.L & ~hi){ f = {true, "inadmissible-loaded", when + ": delivered " + maskstr(D) + ", admissible part " + maskstr(hi) + ", loaded " + maskstr(o.L)}; return f; }
             Lprev = o.L;
             if (s.q){ step = "getCandidateConstructionPoints"; if (!query(R, *g, s.q, o, f, b)) return f; }
             if (s.rtpos == b && !last){
@@ -292,8 +303,8 @@ static Fail run_seq(const Ref &R, const Seq &s){
             when = "after the completion batch following " + batches_str(R, s);
             step = "observe"; if (!observe(R, *g, o, f, when.c_str())) return f;
             unsigned lo, hi; R.admissible(D, lo, hi); g_evals++;
-            if (lo & ~o.L){ unsigned miss = lo & ~o.L; bool old = (miss & ((1u << R.n) - 1)) != 0; f = {true, old ? "sample-dropped" : "admissible-not-loaded:completion", when + ": admissible " + maskstr(lo) + ", loaded only " + maskstr(o.L) + (old ? " - a sample delivered earlier and parked is gone" : "")}; return f; }
-            if (o.L & ~hi){ f = {true, "inadmissible-loaded:completion", when + ": admissible " + maskstr(hi) + ", loaded " + maskstr(o.L)}; return f; }
+            if (lo & ~o.L){ unsigned miss = lo & ~o.L; bool old = (miss & ((1u << R.n) - 1)) != 0; f = {true, old ? "parked-sample-not-promoted" : "admissible-not-loaded", when + ": admissible " + maskstr(lo) + ", loaded only " + maskstr(o.L) + (old ? " - a sample delivered earlier and parked is not loaded although its prerequisites have arrived" : "")}; return f; }
+            if (o.L & ~hi){ f = {true, "inadmissible-loaded", when + ": admissible " + maskstr(hi) + ", loaded " + maskstr(o.L)}; return f; }
             if (Lprev & ~o.L){ f = {true, "loaded-point-vanished", when + ": loaded set shrank"}; return f; }
             step = "evaluateBatch"; if (!compare_surrogate(R, *g, R.yrefC, f, when.c_str(), &ybefore)) return f;
             if (!nodal(R, *g, o, f, when.c_str())) return f;
@@ -313,14 +324,15 @@ static Fail run_seq(const Ref &R, const Seq &s){
     return f;
 }
 
-static std::string signature(const Ref &R, const Seq &s, const std::string &kind){
-    return std::string("C09:") + (s.rtpos >= 0 ? "roundtrip-mid-construction:" : "") + kind + ":" + R.famtag + ":" + shape(R, s);
+// query_only: the same deliveries without candidate queries pass, i.e. the query itself changed the outcome
+static std::string signature(const Ref &R, const Seq &s, const std::string &kind, bool query_only){
+    return std::string("C09:") + (s.rtpos >= 0 ? "roundtrip-mid-construction:" : "") + kind + ":" + R.famtag + ":" + shape(R, s) + (query_only ? ":after-candidate-query" : "");
 }
 
 // ------------------------------------------------------------------------------------------------ shared memory of one unit
 struct OutcomeSlot { char key[200]; long n; };
 struct Shm {
-    volatile long cur; volatile int cur_rtpos, cur_rtfmt;            // sequence being executed (crash attribution)
+    volatile long cur; volatile int cur_q, cur_rtpos, cur_rtfmt;            // sequence being executed (crash attribution)
     long execs, transitions, evals, nviol, inherited, rt_execs;
     unsigned char states[1 << 16];                                 // (loaded mask | parked << 12) seen; universe <= 12
     long nstates;
@@ -336,33 +348,28 @@ static std::vector<int> unrank(long k, int n){ std::vector<int> pool(n), perm; s
 
 static std::vector<int> qmodes(const Ref &R){ std::vector<int> q = {0, 1}; if (thorough() && R.n <= 6) q.push_back(2); return q; }
 
-// runs base step s (and its round-trip variants) ; records results in shm; emits violations (capped per signature)
+// Step s = (permutation, composition). Runs it for every query mode (mode 0 first) and, if asked, every round-trip variant of modes 0 and 1;
+// records results in shm; emits violations (capped per signature).
+//  * a failure of a query mode whose query-free twin passes is marked ":after-candidate-query";
+//  * a failure of a round-trip variant whose twin without round trip fails as well is not reported again ("inherited").
+static void decode(const Ref &R, long s, Seq &q){ long ncomp = 1L << (R.n - 1); q.mask = (unsigned)(s % ncomp); q.perm = unrank(s / ncomp, R.n); q.q = 0; q.rtpos = -1; q.rtfmt = 0; }
 static void run_step(const Ref &R, const std::string &unit, Shm *sh, long s, bool with_rt){
-    auto Q = qmodes(R); long nQ = (long) Q.size(), ncomp = 1L << (R.n - 1);
-    Seq q; q.q = Q[s % nQ]; long r = s / nQ; q.mask = (unsigned)(r % ncomp); q.perm = unrank(r / ncomp, R.n);
-    auto record = [&](const Seq &sq, const Fail &f, bool base_failed){
+    Seq q; decode(R, s, q);
+    auto record = [&](const Seq &sq, const Fail &f, bool twin_failed, bool noquery_failed){
         sh->execs++; sh->transitions += g_transitions; sh->evals += g_evals; g_transitions = 0; g_evals = 0;
         for(unsigned t : g_trace) sh->add_state(t);
         if (!g_final_digest.empty()) sh->add_digest(g_final_digest);
-        if (!f.failed){ sh->bump(sq.rtpos >= 0 ? "equal-to-one-batch-load (with mid-construction write/read)" : "equal-to-one-batch-load"); return; }
-        if (sq.rtpos >= 0 && base_failed){ sh->inherited++; sh->bump("round trip of a sequence that already differs without it"); return; }
-        std::string sig = signature(R, sq, f.kind); sh->nviol++;
+        if (!f.failed){ sh->bump(sq.rtpos >= 0 ? "equal to the one-batch load (with a write/read between two deliveries)" : sq.q ? "equal to the one-batch load (candidate queries between deliveries)" : "equal to the one-batch load"); return; }
+        if (sq.rtpos >= 0 && twin_failed){ sh->inherited++; sh->bump("round trip of a delivery sequence that already differs without it"); return; }
+        std::string sig = signature(R, sq, f.kind, sq.q != 0 && !noquery_failed); sh->nviol++;
         if (sh->bump(sig) <= 3) vf::violation(sig, unit, sq.json(R), f.detail);
     };
-    sh->cur = s; sh->cur_rtpos = -1; sh->cur_rtfmt = 0;
-    bool base_failed = false;
-    { Fail f = run_seq(R, q); base_failed = f.failed; record(q, f, false); }
-    if (with_rt){
-        int nb = __builtin_popcount(q.mask) + 1;
-        for(int pos=0; pos<nb-1; pos++) for(int fmt=0; fmt<2; fmt++){ Seq t = q; t.rtpos = pos; t.rtfmt = fmt; sh->cur_rtpos = pos; sh->cur_rtfmt = fmt; Fail f = run_seq(R, t); sh->rt_execs++; record(t, f, base_failed); }
+    sh->cur = s; bool base_failed = false; int nb = __builtin_popcount(q.mask) + 1;
+    for(int qm : qmodes(R)){
+        Seq t = q; t.q = qm; sh->cur_q = qm; sh->cur_rtpos = -1; sh->cur_rtfmt = 0;
+        Fail f = run_seq(R, t); if (qm == 0) base_failed = f.failed; record(t, f, false, base_failed);
+        if (with_rt && qm <= 1) for(int pos=0; pos<nb-1; pos++) for(int fmt=0; fmt<2; fmt++){ Seq r = t; r.rtpos = pos; r.rtfmt = fmt; sh->cur_rtpos = pos; sh->cur_rtfmt = fmt; Fail fr = run_seq(R, r); sh->rt_execs++; record(r, fr, f.failed, base_failed); }
     }
-}
-
-static long seq_index(const Ref &R, const Seq &s){ // inverse of the decoding in run_step
-    auto Q = qmodes(R); long nQ = (long) Q.size(), ncomp = 1L << (R.n - 1); long qi = 0; for(size_t i=0;i<Q.size();i++) if (Q[i] == s.q) qi = (long) i;
-    std::vector<int> pool(R.n); std::iota(pool.begin(), pool.end(), 0); long k = 0; std::vector<long> fact(R.n + 1, 1); for(int i=1;i<=R.n;i++) fact[i] = fact[i-1] * i;
-    for(int i=0;i<R.n;i++){ int j = (int)(std::find(pool.begin(), pool.end(), s.perm[i]) - pool.begin()); k += j * fact[R.n - 1 - i]; pool.erase(pool.begin() + j); }
-    return (k * ncomp + s.mask) * nQ + qi;
 }
 
 // ------------------------------------------------------------------------------------------------ lattice of configurations
@@ -390,9 +397,6 @@ struct Lattice {
         for(auto &h : smaller) add("beyond", h, t, {}, {}, false, allow);
     }
 };
-// points of 'big' that are not in 'small'
-static std::vector<Pt> minus(const std::vector<Pt> &big, const std::vector<Pt> &small){ std::vector<Pt> r; for(auto &p : big){ bool f = false; for(auto &q : small){ bool same = true; for(size_t j=0;j<p.size();j++) if (std::abs(p[j] - q[j]) > 1e-12) same = false; if (same) f = true; } if (!f) r.push_back(p); } return r; }
-
 static std::vector<Conf> lattice(){
     Lattice L; bool th = thorough(); L.nmax = th ? 6 : 5;
     std::vector<int> OUTS = th ? std::vector<int>{1, 2} : std::vector<int>{1};
@@ -502,8 +506,8 @@ static void run_unit(const Conf &conf){
     if (sh == MAP_FAILED){ vf::emit(vf::J().s("t","error").s("what","mmap failed")); return; }
     if (!R.ref_mismatch.empty()){ Seq s; s.perm.resize(R.n); std::iota(s.perm.begin(), s.perm.end(), 0); s.mask = 0; std::string sig = "C09:one-batch-construction-differs-from-loadNeededValues:" + R.famtag; sh->nviol++; sh->bump(sig); vf::violation(sig, unit, s.json(R), R.ref_mismatch); }
     bool with_rt = thorough() && conf.rt && R.n <= 5;
-    long nQ = (long) qmodes(R).size(), total = nQ << (R.n - 1); for(int i=2;i<=R.n;i++) total *= i;
-    long s = 0; bool complete = true; int ncrash = 0; const long CH = with_rt ? 1024 : 4096;
+    long total = 1L << (R.n - 1); for(int i=2;i<=R.n;i++) total *= i;   // steps = permutations x compositions (each step runs every query mode / round-trip variant)
+    long s = 0; bool complete = true; int ncrash = 0; const long CH = with_rt ? 512 : 2048;
     while(s < total){
         if (vf::past_deadline()){ complete = false; break; }
         if (ncrash >= 5){ vf::emit(vf::J().s("t","note").s("text", unit + ": stopped after 5 crashing sequences, " + std::to_string(total - s) + " sequences not run")); complete = false; break; }
@@ -513,9 +517,9 @@ static void run_unit(const Conf &conf){
         if (o.kind == vf::Outcome::OK){ complete = false; s = sh->cur < s0 ? s0 : sh->cur; break; } // deadline inside the child
         long bad = sh->cur; if (bad < s0 || bad >= s1){ vf::emit(vf::J().s("t","error").s("what", unit + ": child died outside a sequence: " + o.describe() + " " + o.err.substr(0, 400))); complete = false; break; }
         // attribute the crash to the sequence that was running
-        auto Q = qmodes(R); Seq q; q.q = Q[bad % nQ]; long r = bad / nQ; q.mask = (unsigned)(r % (1L << (R.n - 1))); q.perm = unrank(r / (1L << (R.n - 1)), R.n); q.rtpos = sh->cur_rtpos; q.rtfmt = sh->cur_rtfmt;
+        Seq q; decode(R, bad, q); q.q = sh->cur_q; q.rtpos = sh->cur_rtpos; q.rtfmt = sh->cur_rtfmt;
         std::string cls = (o.kind == vf::Outcome::SANITIZER) ? o.sanitizer_class() : o.describe();
-        std::string sig = signature(R, q, "crash:" + cls); sh->nviol++; sh->execs++; sh->bump(sig);
+        std::string sig = signature(R, q, "crash:" + cls, false); sh->nviol++; sh->execs++; sh->bump(sig);
         vf::violation(sig, unit, q.json(R), o.describe() + " while executing " + batches_str(R, q) + ": " + o.err.substr(0, 1500));
         ncrash++; s = bad + 1;
     }
@@ -524,7 +528,7 @@ static void run_unit(const Conf &conf){
     vf::emit(vf::J().s("t","outcome").s("key", std::string("configuration: ") + (differs ? "some delivery sequences differ" : "all delivery sequences equal") + " (" + famname(R.fam) + ")").i("n", 1));
     vf::emit(vf::J().s("t","unit").s("unit", unit).i("states", sh->nstates).i("transitions", sh->transitions).i("execs", sh->execs).i("evals", sh->evals).i("distinct", sh->ndistinct)
         .i("n", R.n).i("universe", R.nu).i("sequences_total", total).i("sequences_done", s).i("roundtrip_execs", sh->rt_execs).i("violations", sh->nviol).i("roundtrip_inherited", sh->inherited).b("distinct_saturated", sh->saturated != 0).n("wall", vf::now() - t0).b("complete", complete));
-    { Seq sm; sm.perm = unrank((total / nQ / (1L << (R.n - 1))) / 2, R.n); sm.mask = (unsigned)((1L << (R.n - 1)) / 3); sm.q = 1; vf::emit(vf::J().s("t","sample").raw("case", sm.json(R))); }
+    { Seq sm; decode(R, total / 3, sm); sm.q = 1; vf::emit(vf::J().s("t","sample").raw("case", sm.json(R))); }
     if (!complete) vf::emit(vf::J().s("t","incomplete").s("unit", unit));
     munmap(sh, sizeof(Shm));
 }
@@ -540,9 +544,11 @@ int main(int argc, char **argv){
         Seq s; for(long x : vf::jints(vf::jget(cs, "perm"))) s.perm.push_back((int) x); s.mask = (unsigned) atol(vf::jget(cs, "mask").c_str()); s.q = atoi(vf::jget(cs, "q").c_str()); s.rtpos = atoi(vf::jget(cs, "rtpos").c_str()); s.rtfmt = atoi(vf::jget(cs, "rtfmt").c_str());
         if ((int) s.perm.size() != R.n){ vf::emit(vf::J().s("t","error").s("what","replay: permutation length does not match the configuration")); return 0; }
         if (!R.ref_mismatch.empty()) vf::violation("C09:one-batch-construction-differs-from-loadNeededValues:" + R.famtag, "replay", s.json(R), R.ref_mismatch);
-        vf::Outcome o = vf::run_child([&](int fd){ Fail f = run_seq(R, s); if (f.failed) vf::wr(fd, f.kind + "\n" + f.detail); }, 120.0);
-        if (o.kind != vf::Outcome::OK){ std::string cls = (o.kind == vf::Outcome::SANITIZER) ? o.sanitizer_class() : o.describe(); vf::violation(signature(R, s, "crash:" + cls), "replay", s.json(R), o.describe() + ": " + o.err.substr(0, 1500)); }
-        else if (!o.out.empty()){ size_t p = o.out.find('\n'); vf::violation(signature(R, s, o.out.substr(0, p)), "replay", s.json(R), o.out.substr(p + 1)); }
+        vf::Outcome o = vf::run_child([&](int fd){
+            bool noquery_failed = true; if (s.q != 0){ Seq t = s; t.q = 0; t.rtpos = -1; noquery_failed = run_seq(R, t).failed; }
+            Fail f = run_seq(R, s); if (f.failed) vf::wr(fd, std::string(s.q != 0 && !noquery_failed ? "Q" : "-") + f.kind + "\n" + f.detail); }, 120.0);
+        if (o.kind != vf::Outcome::OK){ std::string cls = (o.kind == vf::Outcome::SANITIZER) ? o.sanitizer_class() : o.describe(); vf::violation(signature(R, s, "crash:" + cls, false), "replay", s.json(R), o.describe() + ": " + o.err.substr(0, 1500)); }
+        else if (!o.out.empty()){ size_t p = o.out.find('\n'); vf::violation(signature(R, s, o.out.substr(1, p - 1), o.out[0] == 'Q'), "replay", s.json(R), o.out.substr(p + 1)); }
         vf::emit(vf::J().s("t","summary").s("replay", o.describe())); return 0;
     }
     auto confs = lattice();
